@@ -80,6 +80,9 @@ def typedArgs : List FnArg → List FnArg := List.filter (fun a => !a.isRecv)
 /-- the parameters after the dependency parameter -/
 def Sig.userParams (s : Sig) (noDeps : Bool) : List FnArg := if noDeps then s.inputs else s.inputs.drop 1
 
+def stripPrefix (pre : Toks) (ts : Toks) : Option Toks :=
+  if pre.isPrefixOf ts then some (ts.drop pre.length) else none
+
 /-! ### recognisers for generated bodies -/
 
 structure Call where
@@ -123,9 +126,6 @@ structure DelegCall where
   args : List String
   await : Bool
   deriving DecidableEq, Repr, Inhabited
-
-def stripPrefix (pre : Toks) (ts : Toks) : Option Toks :=
-  if pre.isPrefixOf ts then some (ts.drop pre.length) else none
 
 def parseDeleg (ts : Toks) : Option DelegCall :=
   let selfAsRef : Toks := [i "self", p '.', i "as_ref", parens [], p '.']
@@ -343,14 +343,15 @@ inductive MockKind | unimock | automock
   deriving DecidableEq, Repr, Inhabited
 
 /-- (kind, wrapped in `cfg_attr(test, ..)`) if the attribute is one of the macro's mock derivations -/
+def classifyMock (ts : Toks) : Option MockKind :=
+  match stripPrefix unimockPath ts with
+  | some [.group .paren _] => some .unimock
+  | _ => if ts == mockallPath then some .automock else none
+
 def Attr.mockKind (a : Attr) : Option (MockKind × Bool) :=
-  let classify (ts : Toks) : Option MockKind :=
-    if unimockPath.isPrefixOf ts then some .unimock
-    else if ts == mockallPath then some .automock
-    else none
   match a.inner with
-  | [.ident "cfg_attr", .group .paren (.ident "test" :: .punct ',' :: rest)] => (classify rest).map (·, true)
-  | ts => (classify ts).map (·, false)
+  | [.ident "cfg_attr", .group .paren (.ident "test" :: .punct ',' :: rest)] => (classifyMock rest).map (·, true)
+  | ts => (classifyMock ts).map (·, false)
 
 def mockKinds (t : GenTrait) : List (MockKind × Bool) := t.attrs.filterMap Attr.mockKind
 
@@ -359,11 +360,15 @@ def expectedMockKinds (mode : Mode) (o : Opts) : List (MockKind × Bool) :=
   (if o.unimockValue && (mode == .trait || o.mockApi.isSome) then [(.unimock, gated)] else []) ++
   (if o.mockallValue then [(.automock, gated)] else [])
 
+/-- mock derivations the user wrote below entrait and which entrait deliberately re-applies -/
+def userMockKinds (item : Item) : List (MockKind × Bool) :=
+  (item.attrs.filter (fun a => a.subKind == .asyncTrait || a.subKind == .automock)).filterMap Attr.mockKind
+
 def P_C10 (v : Variant) (attr : Toks) (item : Item) (view : View) : Bool :=
   match item.mode, effectiveOpts v attr item, traitsOf view.items with
   | .impl, _, ts => ts.all (fun t => mockKinds t == [])
   | mode, some o, t :: rest =>
-      mockKinds t == expectedMockKinds mode o && rest.all (fun d => mockKinds d == [])
+      mockKinds t == expectedMockKinds mode o ++ userMockKinds item && rest.all (fun d => mockKinds d == [])
   | _, _, _ => false
 
 /-! ## C18 — foreign attributes stay where the user put them -/
@@ -461,6 +466,19 @@ def P_C03 (v : Variant) (attr : Toks) (item : Item) (view : View) : Bool :=
           zipAll (fun src m => match m.sig? with
             | some g => sigTypesAgree noDeps 0 src g && g.inputs.head? == expectedReceiver noDeps src &&
                         g.output == src.output && g.async_ == src.async_
+            | none => false) srcs im.members &&
+          -- every where-predicate that is not about the dependency parameter stays in scope
+          zipAll (fun src m => match m.sig? with
+            | some g => src.generics.preds.all (fun q =>
+                (match q, (if noDeps then none else src.depGenericName) with
+                 | .ty _ (.path _ _ 1 f _) _ _, some d => f == d
+                 | _, _ => false) || t.preds.contains q || g.generics.preds.contains q)
+            | none => false) srcs t.members &&
+          zipAll (fun src m => match m.sig? with
+            | some g => src.generics.preds.all (fun q =>
+                (match q, (if noDeps then none else src.depGenericName) with
+                 | .ty _ (.path _ _ 1 f _) _ _, some d => f == d
+                 | _, _ => false) || im.preds.contains q || g.generics.preds.contains q)
             | none => false) srcs im.members &&
           -- generic scoping: every lifted parameter is declared on the trait, the impl names them in order
           srcs.all (fun src => (liftedParams noDeps src).all (fun q => t.params.contains q)) &&
@@ -885,6 +903,10 @@ def P_C19 (attr : Toks) (item : Item) (view : View) : Bool :=
                    | .ok a => (match a.delegation with | some (.byTrait d) => some d | _ => none)
                    | .error _ => none)
     | _ => none
+  let srcSigs : List Sig :=
+    match item with
+    | .trait t => t.fns.map (·.sig)
+    | _ => item.sourceFns.map (·.sig)
   (implsOf view.items).all (fun im =>
     -- bounds on the macro's own type parameter
     (match im.params.head? with
@@ -900,19 +922,18 @@ def P_C19 (attr : Toks) (item : Item) (view : View) : Bool :=
            (match b with
             | .ident s :: _ => some s == userTrait || some s == implTraitIdent || some s == delegIdent
             | _ => false))
-     | _, _ => true)) &&
+     | _, _ => true) &&
+    -- delegating bodies are of the recognised shapes, which name everything absolutely
+    im.members.all (fun m => match m with
+      | .fn _ _ (some b) => if item.mode == .trait then (parseDeleg b).isSome else (parseCall b).isSome
+      | _ => true)) &&
   (traitsOf view.items).all (fun t =>
-    t.attrs.all (fun a => match a.mockKind with
-      | some _ => true   -- recognised only under their absolute paths
-      | none => true) &&
-    t.members.all (fun m => match m with
-      | .fn _ sig none =>
-          (match sig.output with
-           | some (.ident "impl" :: rest) =>
-               -- a future wrapper the macro wrote (as opposed to the user's own `impl Trait`)
-               !(futurePath.isPrefixOf rest) || true
-           | _ => true)
-      | _ => true))
+    -- a return type the macro rewrote is the absolute `impl ::core::future::Future<..>` form
+    (t.members.all (fun m => m.sig?.isNone)) ||
+    zipAll (fun (src : Sig) m => match m.sig? with
+      | some g => g.output == src.output || g.output == some (futureWrapper src.output true) ||
+                  g.output == some (futureWrapper src.output false)
+      | none => false) srcSigs (t.members.filter (fun m => m.sig?.isSome)))
 
 /-! ## C15 — misuse yields its diagnostic; never a panic; the output always parses -/
 
